@@ -6,7 +6,10 @@
 // and the shipped behaviour is unchanged.
 package verifhook
 
-import "context"
+import (
+	"context"
+	"sync"
+)
 
 // Enabled reports whether the binary was built with the verif tag.
 const Enabled = true
@@ -21,4 +24,20 @@ func Yield(ctx context.Context, point string) {
 	if h := Hook; h != nil {
 		h(ctx, point)
 	}
+}
+
+// BeforeLock is called right before mu.Lock() at call sites whose critical
+// section contains Yield points. Under the simulator only one task runs at a
+// time, so a task must never block on a sync.Mutex held by a parked task:
+// instead it parks here until the mutex is free. The mutex is released again
+// before returning; the Lock() that follows cannot block, because no other task
+// runs in between.
+func BeforeLock(ctx context.Context, mu *sync.Mutex, point string) {
+	if Hook == nil {
+		return
+	}
+	for !mu.TryLock() {
+		Yield(ctx, point)
+	}
+	mu.Unlock()
 }
